@@ -11,8 +11,9 @@ Case line:  ns <variant> <nsess> <nstart,maxrt,est0,udp>*nsess <op>*      (see o
 
 
 class Sess:
-    def __init__(self, nstart, maxrt, est0):
+    def __init__(self, nstart, maxrt, est0, client=True):
         self.nstart, self.maxrt, self.est, self.open = nstart, maxrt, bool(est0), True
+        self.client = client
         self.act = 0
         self.dq = []          # (con, mid, tok, cnt)
         self.sq = []          # (con, mid, tok, cnt)
@@ -97,11 +98,12 @@ class Sess:
 
     def fail(self, reason):
         if self.open and reason != 4:
-            self.open, self.est, self.act, self.dq, self.sq = False, True, 0, [], []
+            # a client session's socket is closed; a server-side session goes on with empty queues
+            self.open, self.est, self.act, self.dq, self.sq = (not self.client), True, 0, [], []
 
 
 def cfg_tok(s, est0):
-    return "%d,%d,%d,1" % (s.nstart, s.maxrt, 1 if est0 else 0)
+    return "%d,%d,%d,1%s" % (s.nstart, s.maxrt, 1 if est0 else 0, "" if s.client else ",s")
 
 
 def gen_case(r, big=False, natural=False, errs=False):
@@ -110,7 +112,8 @@ def gen_case(r, big=False, natural=False, errs=False):
     ss, est0s = [], []
     for _ in range(nsess):
         est0 = r.random() > 0.2
-        ss.append(Sess(r.choice([1, 1, 1, 2, 2, 3, 4]), r.choice([1, 1, 2, 2, 4]), est0))
+        ss.append(Sess(r.choice([1, 1, 1, 2, 2, 3, 4]), r.choice([1, 1, 2, 2, 4]), est0,
+                       client=r.random() > 0.35))
         est0s.append(est0)
     next_mid = [r.randrange(1, 60000) for _ in range(nsess)]
     next_tok = [10000 + 1000 * k for k in range(nsess)]   # away from libcoap's own state tokens (1, 2, ...)
@@ -240,12 +243,12 @@ def line_of(prefix, ops):
     return " ".join(list(prefix) + list(ops))
 
 
-def enum_cases(depth, nstart, maxrt, est0, max_sub=3):
+def enum_cases(depth, nstart, maxrt, est0, max_sub=3, client=True):
     """Exhaustive small scope: every history of exactly `depth` events over the alphabet
     {S con, S non, and for every message id submitted so far: A R T P, plus one unknown id for A R,
      U, F1, F4} on one session; ids are 1,2,3.. in submission order, tokens 10000+id.
     Yields (prefix, ops)."""
-    prefix = ["ns", "1", "1", "%d,%d,%d,1" % (nstart, maxrt, 1 if est0 else 0)]
+    prefix = ["ns", "1", "1", "%d,%d,%d,1%s" % (nstart, maxrt, 1 if est0 else 0, "" if client else ",s")]
 
     def rec(ops, nsub, left):
         if left == 0:
@@ -258,8 +261,8 @@ def enum_cases(depth, nstart, maxrt, est0, max_sub=3):
             alpha += ["A0,%d" % m, "R0,%d" % m, "T0,%d" % m, "P0,%d" % (10000 + m)]
         alpha += ["U0", "F0,1", "F0,4"]
         for a in alpha:
-            # nothing but refused submissions can follow a disconnect: prune
-            if ops and ops[-1] == "F0,1" and a[0] != "S":
+            # nothing but refused submissions can follow the disconnect of a client session: prune
+            if client and ops and ops[-1] == "F0,1" and a[0] != "S":
                 continue
             ops.append(a)
             yield from rec(ops, nsub + (1 if a[0] == "S" else 0), left - 1)
